@@ -2,7 +2,9 @@ import Nsq.Model.Line
 import Nsq.Model.ProtoV2
 import Nsq.Model.HttpApi
 import Nsq.Model.HttpFull
+import Nsq.Model.HttpBody
 import Nsq.Model.Identify
+import Nsq.Model.ProtoEnv
 import Nsq.Spec.ProtoSpec
 /-!
 Driver for engine E3 (proto): one operation per input line, one canonical answer line out.
@@ -16,6 +18,7 @@ The broker and the tables persist across lines (a case is `reset` followed by op
   iof <conf> <hexstream> <hexid,…>   (the ids are in flight for this connection)
   http <conf> <method> <hexpath> <hexquery> <contentLength|-1> <hexbody> <healthy>
   httpx … (same fields)   whole-table model `HttpFull.serve`: status, headers, kind of body, broker
+  httpb … (same fields; body hex or rep:<hex>:<n>)  audit 7: `serve` status + body bytes read (R now, RO before F33) + broker
   spec <conf> <hexstream>
   name <hex> | b10 <hex> | pint <hex> | query <hex> | mpubtext <maxMsg> <maxBody> <hex>
 -/
@@ -32,6 +35,8 @@ structure DState where
   confs : List (String × DConf) := []
   json : List (Bytes × Option IdentifyData) := []
   brokers : List (String × Broker) := []   -- one broker per configuration (= per nsqd)
+  xconfs : List (String × Int × Bool) := []               -- audit09: max-channel-consumers, auth enabled
+  authd : List (Bytes × Option (Nat × List Bytes)) := []  -- audit09: secret → none = error | (n, granted topics)
 
 def b01 (s : String) : Bool := s == "1"
 
@@ -116,6 +121,37 @@ partial def specWalk (conf : Conf) (s : ConnState) (bs : Bytes) (fuel : Nat) : L
     let stp := exec conf s [] ps rest
     if stp.ctl == .cont then here :: specWalk conf stp.st stp.rest (fuel - 1) else [here]
   | _ => []
+
+/-! ### audit09 (`iox`): the model with consumer limit, backend fault and authorization state -/
+
+def authdOf (tbl : List (Bytes × Option (Nat × List Bytes))) (secret : Bytes) : ProtoEnv.AuthdRes :=
+  match (tbl.find? (fun e => e.1 == secret)).map (·.2) with
+  | some (some (n, topics)) => .state n (fun t _ => topics.contains t)
+  | _ => .failed
+
+/-- First IDENTIFY body of an `iox` run that is not in the json table yet. -/
+partial def scanNeedX (xc : ProtoEnv.XConf) (tbl : List (Bytes × Option IdentifyData))
+    (x : ProtoEnv.XState) (b : Broker) (bs : Bytes) : Option Bytes :=
+  match readLine bs with
+  | .line l rest =>
+    let ps := splitSp l
+    let need : Option Bytes :=
+      if ps.head? == some cIDENTIFY && x.conn.st == .init then
+        match readBody xc.base.maxBodySize rest with
+        | .ok body _ => if (lookupJson tbl body).isNone then some body else none
+        | _ => none
+      else none
+    match need with
+    | some y => some y
+    | none =>
+      let r := ProtoEnv.execX xc x b ps rest
+      if r.1.ctl == .cont then scanNeedX xc tbl r.2 r.1.broker r.1.rest else none
+  | _ => none
+
+/-- `name:message_count:depth` per topic (nodes whose queues live in a disk backend). -/
+def showQueues (b : Broker) : String :=
+  joinOr "/" (sortStrs (b.map (fun t =>
+    s!"{hex t.name}:{t.count}:{t.msgs.length + (t.chans.map (fun c => c.msgs.length)).foldl (· + ·) 0}")))
 
 def parseInt (s : String) : Int := s.toInt?.getD 0
 
@@ -259,6 +295,22 @@ def stepLine (st : DState) (line : String) : DState × String :=
       (st.setBroker cid r.2,
        s!"W={HttpApi.showStatus r.1.status} CT={if r.1.ctJson then 1 else 0} X={if r.1.nsqHdr then 1 else 0} K={showBody r.1.body} B={showBroker r.2}")
     | _, _, _, _ => (st, "bad-op")
+  | ["httpb", cid, method, hp, hq, cl, hb, healthy] =>
+    -- audit round 7 (C10, B16): the whole-table answer plus the number of body bytes the handler reads
+    -- (`R`: current tree, `RO`: the tree before fix F33). Body: hex, or `rep:<hex>:<count>`.
+    let body? : Option Bytes :=
+      match hb.splitOn ":" with
+      | ["rep", h, n] => (unhex h).map (fun c => (List.replicate n.toNat! c).flatten)
+      | _ => unhex hb
+    match st.confs.find? (·.1 == cid), unhex hp, unhex hq, body? with
+    | some (_, dc), some path, some query, some body =>
+      let rq : HttpApi.Request :=
+        { method := Names.ascii method, path := path, rawQuery := query, contentLength := parseInt cl,
+          body := body }
+      let r := HttpFull.serve dc.http (b01 healthy) (st.broker cid) rq
+      (st.setBroker cid r.2,
+       s!"W={HttpApi.showStatus r.1.status} R{HttpBody.showRead (HttpBody.bodyRead dc.http rq)} RO{HttpBody.showRead (HttpBody.bodyReadOld dc.http rq)} B={showBroker r.2}")
+    | _, _, _, _ => (st, "bad-op")
   | ["idn", cid, hb, obs, obt, mt, sr, fn, tls, defl, snap, dl, hcid, hhost, hua, hreg, hzone, maxDefl, auth] =>
     match st.confs.find? (·.1 == cid), unhex hcid, unhex hhost, unhex hua, unhex hreg, unhex hzone with
     | some (_, dc), some cid', some host, some ua, some reg, some zone =>
@@ -280,6 +332,46 @@ def stepLine (st : DState) (line : String) : DState × String :=
       | .doc c r n =>
         (st, s!"O=doc {showC c} D={r.maxRdyCount},{r.maxMsgTimeout},{r.msgTimeout},{bi r.tlsv1},{bi r.deflate},{r.deflateLevel},{r.maxDeflateLevel},{bi r.snappy},{r.sampleRate},{bi r.authRequired},{r.outputBufferSize},{r.outputBufferTimeout} U={if n.tlsv1 then "-" else bi n.snappy ++ bi n.deflate}")
     | _, _, _, _, _, _ => (st, "bad-op")
+  | ["confx", cid, maxcc, authOn] =>
+    ({ st with xconfs := (cid, s!"{maxcc}".toInt?.getD 0, b01 authOn) :: st.xconfs.filter (·.1 != cid) }, "ok")
+  | ["authd", hs, "fail"] =>
+    match unhex hs with
+    | some sec => ({ st with authd := (sec, none) :: st.authd.filter (·.1 != sec) }, "ok")
+    | none => (st, "bad-op")
+  | ["authd", hs, n, topics] =>
+    match unhex hs with
+    | some sec =>
+      let ts := if topics == "-" then [] else (topics.splitOn ",").filterMap unhex
+      ({ st with authd := (sec, some (n.toNat?.getD 0, ts)) :: st.authd.filter (·.1 != sec) }, "ok")
+    | none => (st, "bad-op")
+  | ["mkt", cid, ht] =>
+    match unhex ht with
+    | some t => (st.setBroker cid (getTopic (st.broker cid) t), "ok")
+    | none => (st, "bad-op")
+  | ["iox", cid, h, keep, fault, vw] =>
+    -- one connection under `ProtoEnv`: keep = 1: the connection stays open after its bytes (no
+    -- teardown); fault = k: only k further backend writes succeed; vw = b | q: what of the broker is shown
+    match st.confs.find? (·.1 == cid), unhex h with
+    | some (_, dc), some bs =>
+      let tbl := st.json
+      let (maxcc, authOn) := ((st.xconfs.find? (·.1 == cid)).map (·.2)).getD (0, false)
+      let conf := { dc.conf with decode := fun body => (lookupJson tbl body).getD none }
+      let xc : ProtoEnv.XConf :=
+        { base := conf, maxChanConsumers := maxcc, authEnabled := authOn, authd := authdOf st.authd }
+      let x0 : ProtoEnv.XState :=
+        { conn := freshConn dc.hbNs dc.obtNs dc.mtNs, auth := none, putsOk := fault.toNat? }
+      let need := if bs.take 4 == magicV2 then scanNeedX xc tbl x0 (st.broker cid) (bs.drop 4) else none
+      match need with
+      | some body => (st, s!"need-json {hex body}")
+      | none =>
+        let r := if keep == "1" then ProtoEnv.connectX xc x0 (st.broker cid) bs
+                 else ProtoEnv.serveX xc x0 (st.broker cid) bs
+        let fin := if keep == "1" && r.fin == .eof then "open" else showEnd r.fin
+        let conn := if r.fin == .eof then showConn r.st else "-"
+        let bv := if vw == "q" then showQueues r.broker else showBroker r.broker
+        (st.setBroker cid r.broker,
+         s!"R={joinOr "," (r.replies.map showReply)} E={fin} S={conn} B={bv}")
+    | _, _ => (st, "bad-op")
   | ["jsarr", h] =>
     match unhex h with
     | some b => (st, if HttpFull.isStrArrayJson b then "accept" else "reject")
